@@ -214,7 +214,7 @@ P("C13",
   level_text="Bounded random exploration of the magnet clause: generated links (hex / base32 hashes, names of arbitrary bytes, 0..5 tiers of 1..3 trackers, peer "
              "addresses incl. bracketed IPv6) are exported with Magnet.String and parsed back (same hash, name, peers, and the same multiset of tiers each compared as a set), "
              "and links written the way other clients write them (percent-encoding every byte, explicit tier indexes, unrelated parameters) are parsed and compared with the generator's ground truth. "
-             "The metadata-adoption clauses are decided by the session-level unit when listed.",
+             "The metadata-adoption clauses are decided by the session-level unit c13.metadata (child process per case).",
   level_note="Trusted: the generator's ground truth and its percent-encoder. Order between tiers is not asserted for exported links (the statement says 'each tier as a set'; "
              "single-tracker tiers are written with the index-less parameter). Lower-case base32 hashes may be rejected (labelled, not a violation).",
   technique="property-based testing (rapid): round trip + differential against generator ground truth",
@@ -222,6 +222,12 @@ P("C13",
   assumptions=[],
   units=[
    U("c13.magnet", "c13", "TestMagnet", "magnet String/New round trip and foreign-link parsing", Q(20000, 4), T(2000000), min_nontrivial_frac=0.2),
+   U("c13.metadata", "c13", "TestMetadata",
+     "a real magnet-added session and 1..5 scripted peers with generated ut_metadata behaviour (honest, garbage of the right size, wrong total size, short/long pieces, duplicates, unrequested indexes, reject, "
+     "silent, disconnect) x announced metadata_size (true, +-1, 2^31-1, just over the configured maximum, 2^32 + true size, 0) x connect time / direction / answer delay x parallel metadata downloads x "
+     "info dictionaries of 1..3 metadata pieces: if metadata is adopted it hashes to the link and carries the info name; a peer announcing more than the maximum never receives a request; with an honest peer the "
+     "fetch succeeds, else the stuck-state predicate fires; a liar never stops the torrent; metadata over the configured piece limit is not adopted",
+     Q(48, 16, 900), T(2000, 16), min_nontrivial_frac=0.3, shrinktime="40s"),
   ])
 
 P("C14",
